@@ -115,6 +115,17 @@ def load_contracts():
                  "reads_it_in_the_dialect_data_csv_is_written_in": AS_SAVED},
         callee_variants={"ResultsManager.get_last_named_result": "found"},
         property_clauses={"reads_the_referenced_members_data_file": "C20", "reads_it_in_the_dialect_data_csv_is_written_in": "C20"}, **common))
+    # ---- the data file a member leaves for its successor: <its instance directory>/data.csv
+    cs.append(Contract(target="csvpath/managers/results/result.py::Result.instance_dir", interface=True, variant="as_a_ghost", types={}, ensures={}, returns="expr:self.g_instance_dir",
+                       class_fields={**CF, "Result": {**CF.get("Result", {}), "g_instance_dir": "str"}},
+                       assumptions=["Result.instance_dir is <run dir>/<identity or index> (get_instance_dir: own contract in C09)"]))
+    cs.append(Contract(
+        target="csvpath/managers/results/result.py::Result.data_file_path", variant="body", types={},
+        ensures={"data_csv_in_the_members_own_instance_directory": "result == path_join(self.g_instance_dir, 'data.csv')"},
+        callee_variants={"Result.instance_dir": "as_a_ghost"},
+        class_fields={**CF, "Result": {**CF.get("Result", {}), "g_instance_dir": "str"}}, macros=MACROS, returns="str", native={"skip": True},
+        property_clauses={"data_csv_in_the_members_own_instance_directory": "C20,C09"},
+        doc={"data_csv_in_the_members_own_instance_directory": "C20: 'reads exactly the lines its predecessor collected (its data.csv)'"}))
     # ---- which run directory a results reference names
     for fn, last in (("_find_last", "True"), ("_find_first", "False")):
         cs.append(Contract(target=f"{RM}::ResultsManager.{fn}", interface=True, types={"filename": "str", "instance": "str"},
